@@ -51,6 +51,13 @@ func mutationsFor(s *Site) []Mutation {
 			// Prometheus label name; key and metric-key fields become labels "key_<name>"
 			ms = append(ms, Mutation{Name: "non-label-name", Op: "renameall", Frag: orig + "-x"})
 		}
+		if s.Kind == "root.metricKeys[]" {
+			// a metric key that is also the k-th orchestration key: both become labels "key_<name>" (a no-op variant if the
+			// base has fewer orchestration keys)
+			for k := 0; k < 3; k++ {
+				ms = append(ms, Mutation{Name: fmt.Sprintf("overlaps-orchestration-key-%d", k), Op: "orckey", Frag: fmt.Sprint(k)})
+			}
+		}
 		return ms
 	case "schemadecl":
 		return withWrongKinds(rep("empty", `""`), Mutation{Name: "duplicate", Op: "dupname"})
